@@ -248,8 +248,10 @@ def feat(seed, h):
     """Independent pseudo-random feature choices for case number h: f(name, n) in 0..n-1 depends on (seed, h, name) only, so
     two features are uncorrelated whatever their moduli (striding h % n couples every pair of features whose moduli share a
     factor - a duplex option that only ever met the API path was how that was noticed), and one feature asked twice agrees."""
-    import zlib
+    import hashlib
 
     def f(name, n):
-        return zlib.crc32(f"{seed}/{h}/{name}".encode()) % n
+        # (a cryptographic hash: CRC32 is linear, so the low bits of two similar names differ by a constant and features
+        #  with power-of-two moduli came out perfectly correlated - seen in the mutation regression)
+        return int.from_bytes(hashlib.blake2b(f"{seed}/{h}/{name}".encode(), digest_size=8).digest(), "big") % n
     return f
